@@ -63,18 +63,26 @@ def age(s, m, rng, nv, steps=12, held=None):
     held = [] if held is None else held
     full = (1 << (1 << nv)) - 1
     names = list(range(nv))
+    last = None
     for _ in range(steps):
         k = rng.random()
         if k < 0.45:
             u = build_tt(s, m, rng.randrange(full + 1), names)
+            last = u if (u is not None and abs(u) != 1) else None
             if u is not None and rng.random() < 0.5:
                 s.op(m, 'incref', u)
                 held.append(u)
         elif k < 0.6:
             s.op(m, 'gc', None)
+            last = None
+        elif k < 0.65 and last is not None:
+            # a rooted collection that names the latest (possibly unreferenced) result
+            s.op(m, 'gc', [last])
+            last = None
         elif k < 0.75 and nv >= 2:
             x = rng.randrange(nv - 1)
             s.op(m, 'swap', x, x + 1)
+            last = None
         elif k < 0.85 and held:
             u = held.pop(rng.randrange(len(held)))
             s.op(m, 'decref', u)
@@ -132,7 +140,11 @@ def reuse_scenarios(ctx, key, label, nv=3, reps=10):
             r = s.op(0, 'apply', alias, a, c, None)
             ok = check(f'{scenario}: first {alias}', r, e) and ok
             if scenario == 'A':
-                s.op(0, 'gc', None)
+                # full collection, or the ROOTED one that names the dropped result
+                if r is not None and abs(r) != 1 and rng.random() < 0.5:
+                    s.op(0, 'gc', [r])
+                else:
+                    s.op(0, 'gc', None)
                 # other functions take the freed numbers
                 for _ in range(rng.randint(1, 3)):
                     build_tt(s, 0, rng.randrange(full + 1), names)
@@ -144,7 +156,10 @@ def reuse_scenarios(ctx, key, label, nv=3, reps=10):
                 if r is not None and abs(r) != 1:
                     s.op(0, 'incref', r)
                 s.op(0, 'decref', a)
-                s.op(0, 'gc', None)
+                if rng.random() < 0.5:
+                    s.op(0, 'gc', [a])
+                else:
+                    s.op(0, 'gc', None)
                 th = rng.randrange(1, full)
                 h = build_tt(s, 0, th, names)
                 if h is not None:
